@@ -10,7 +10,8 @@ import subprocess, shutil
 
 UNITS = {
     'runtime': {'plan': RUNTIME_PLAN, 'contracts': 'runtime.contracts', 'speclib': 'speclib.rs',
-                'theorems': 'theorems.rs', 'out': 'runtime_verus.rs'},
+                'theorems': 'theorems.rs', 'out': 'runtime_verus.rs',
+                'optional': {'pretty': 'runtime_pretty_speclib.rs'}},
     'codegen': {'plan': CODEGEN_PLAN, 'contracts': 'codegen.contracts', 'speclib': 'codegen_speclib.rs',
                 'theorems': 'codegen_theorems.rs', 'out': 'codegen_verus.rs',
                 'optional': {'flags': 'codegen_flags_speclib.rs'}},
@@ -74,7 +75,10 @@ def generate_g(repo, outdir, schema, gen_rs, contracts_dir=None, canary=None):
     out.emit('')
     out.emit(open(os.path.join(contracts_dir, 'speclib.rs')).read().rstrip('\n'))
     out.emit('')
-    extract(repo, RUNTIME_PLAN + G_RUNTIME_EXTRA, contracts, out)
+    # the C11 group (line splitter of error.rs) is not needed next to generated code
+    plan = [dict(e, items=[i for i in e['items'] if i.get('group') != 'pretty']) for e in RUNTIME_PLAN]
+    contracts = {k: c for k, c in contracts.items() if k[1] != 'IndexedStringLineIterator'}
+    extract(repo, [e for e in plan if e['items']] + G_RUNTIME_EXTRA, contracts, out)
     runtime_clause_count = len(out.clause_index)
     out.emit(open(os.path.join(contracts_dir, 'g_common_speclib.rs')).read().rstrip('\n'))
     out.emit(open(os.path.join(contracts_dir, 'g_%s_speclib.rs' % schema)).read().rstrip('\n'))
